@@ -9,6 +9,7 @@ import (
 	"time"
 
 	"github.com/postalsys/muti-metroo/internal/protocol"
+	"github.com/postalsys/muti-metroo/internal/verifrt/simnet"
 	"github.com/postalsys/muti-metroo/internal/verifrt/simrt"
 	. "github.com/postalsys/muti-metroo/internal/verifsim/meshkit"
 )
@@ -53,6 +54,8 @@ type ctlReq struct {
 	onPath   map[int]bool // agents that sent or received a frame of this request
 	consumed bool         // a terminal response has been attributed to this call
 	mayFail  bool         // a link on (one of) its path(s) is reset during the round: an error answer or a time-out is legitimate
+	patience time.Duration // how long the caller waits (0: 12 s)
+	follow   *ctlReq       // issued by the same agent right after this call has been given up
 }
 
 type reqHop struct {
@@ -439,7 +442,10 @@ func runC39() {
 		nd.Cfg.Exit.Enabled = true
 		nd.Cfg.Exit.Routes = []string{fmt.Sprintf("10.%d.0.0/16", 100+j)}
 	}
-	simrt.Eventf("mesh n=%d topo=%s edges=%v", n, topo, m.Edges)
+	// slow links: an answer can arrive after its caller has given up
+	lat := []time.Duration{0, 0, 5 * time.Millisecond, 60 * time.Millisecond, 250 * time.Millisecond}[simrt.Choose(5, "latency")]
+	m.Net.DefaultLatency = func(l *simnet.Link) [2]time.Duration { return [2]time.Duration{lat, lat} }
+	simrt.Eventf("mesh n=%d topo=%s edges=%v latency=%v", n, topo, m.Edges, lat)
 	w := &c39World{m: m, byName: map[string]int{}, byTag: map[string]*ctlReq{}, nbr: m.Neighbours()}
 	for i, nd := range m.Nodes {
 		w.byName[nd.Name] = i
@@ -484,6 +490,24 @@ func runC39() {
 			w.byTag[r.tag] = r
 			batch = append(batch, r)
 			simrt.Eventf("plan %s: %s asks %s for %s after %v", r.tag, m.Nodes[from].Name, m.Nodes[to].Name, typName(r.typ), r.delay)
+			if lat > 0 && simrt.Chance(1, 3, "impatient") {
+				// the caller gives up early and asks somebody else at once: the first
+				// target's answer is still on its way then
+				r.patience = []time.Duration{2 * time.Millisecond, 30 * time.Millisecond, 150 * time.Millisecond, 600 * time.Millisecond}[simrt.Choose(4, "patience")]
+				to2 := (from + 1 + simrt.Choose(n-1, "follow-target")) % n
+				f := &ctlReq{idx: len(w.reqs), round: round, from: from, to: to2, typ: types[simrt.Choose(3, "follow-type")], onPath: map[int]bool{}}
+				f.tag = fmt.Sprintf("q%d.%df", round, k)
+				w.reqs = append(w.reqs, f)
+				w.byTag[f.tag] = f
+				r.follow = f
+				simrt.Eventf("plan %s: patience %v, then %s asks %s for %s", r.tag, r.patience, m.Nodes[from].Name, m.Nodes[to2].Name, typName(f.typ))
+			}
+		}
+		all := append([]*ctlReq(nil), batch...)
+		for _, r := range batch {
+			if r.follow != nil {
+				all = append(all, r.follow)
+			}
 		}
 		// fault round: one mesh link is reset while the calls are in flight. Calls
 		// whose way to the target does not use that link must be answered as if
@@ -495,13 +519,13 @@ func runC39() {
 			// a peers answer is recognised by comparing it with the agents' peer
 			// lists, which the fault changes: fault rounds ask for answers that
 			// name their author (status, routes)
-			for _, r := range batch {
+			for _, r := range all {
 				if r.typ == protocol.ControlTypePeers {
 					r.typ = protocol.ControlTypeStatus
 				}
 			}
 			e := m.Edges[simrt.Choose(len(m.Edges), "fault-edge")]
-			for _, r := range batch {
+			for _, r := range all {
 				r.mayFail = topo == "diamond" || !connectedWithout(m, e, r.from, r.to)
 				if !r.mayFail {
 					simrt.Probe("c39_call_off_the_faulted_link")
@@ -536,25 +560,11 @@ func runC39() {
 				if r.delay > 0 {
 					simrt.Sleep(r.delay)
 				}
-				ctx, cancel := context.WithTimeout(context.Background(), 12*time.Second)
-				defer cancel()
-				resp, err := m.Nodes[r.from].A.SendControlRequestWithData(ctx, m.Nodes[r.to].ID, r.typ, []byte(r.tag))
-				r.done = true
-				if err != nil {
-					if ctx.Err() != nil {
-						r.timedOut = true
-						simrt.Probe("c39_timeout")
-						simrt.Eventf("call %s: timeout", r.tag)
-					} else {
-						r.noRoute = true
-						simrt.Probe("c39_send_failed")
-						simrt.Eventf("call %s: %v", r.tag, err)
-					}
-					return
+				w.ask(r)
+				if r.follow != nil && r.timedOut {
+					simrt.Probe("c39_follow_up_after_abandoned_call")
+					w.ask(r.follow)
 				}
-				r.resp = resp
-				simrt.Eventf("call %s: response id=%d %s ok=%v data=%d/%x", r.tag, resp.RequestID, typName(resp.ControlType), resp.Success, len(resp.Data), simrt.FNV(resp.Data))
-				w.checkAnswer(r)
 			})
 		}
 		g.Wait()
@@ -578,6 +588,34 @@ func runC39() {
 		}
 	}
 	m.StopAll()
+}
+
+// ask performs one call and judges what it returns.
+func (w *c39World) ask(r *ctlReq) {
+	m := w.m
+	patience := 12 * time.Second
+	if r.patience > 0 {
+		patience = r.patience
+	}
+	ctx, cancel := context.WithTimeout(context.Background(), patience)
+	defer cancel()
+	resp, err := m.Nodes[r.from].A.SendControlRequestWithData(ctx, m.Nodes[r.to].ID, r.typ, []byte(r.tag))
+	r.done = true
+	if err != nil {
+		if ctx.Err() != nil {
+			r.timedOut = true
+			simrt.Probe("c39_timeout")
+			simrt.Eventf("call %s: timeout", r.tag)
+		} else {
+			r.noRoute = true
+			simrt.Probe("c39_send_failed")
+			simrt.Eventf("call %s: %v", r.tag, err)
+		}
+		return
+	}
+	r.resp = resp
+	simrt.Eventf("call %s: response id=%d %s ok=%v data=%d/%x", r.tag, resp.RequestID, typName(resp.ControlType), resp.Success, len(resp.Data), simrt.FNV(resp.Data))
+	w.checkAnswer(r)
 }
 
 // roundProbes measures reach: equal ids through one transit, transit that also asks.
